@@ -577,6 +577,30 @@ async fn run_script(script: &Value, out: &mut impl Write) {
                 }
             }
         };
+        // A1 (timers are serviced) holds by construction of TLC's scripts on code that conforms to the model.  A script
+        // computed for the MODEL and replayed on code that has drifted from it (continuations, escalations) must not be
+        // allowed to break it: a tick never jumps over a real deadline - the due handler runs first / in between.
+        let (step, is_epi, is_auto) = if !is_epi && step["a"] == "Tick" {
+            let su = w.sender.as_ref().map(|t| t.verif_until_timeout());
+            let ru = w.receiver.as_ref().map(|t| t.verif_until_timeout());
+            let d = step["d"].as_u64().unwrap();
+            let next = [su, ru].iter().flatten().filter(|x| **x != Duration::MAX).map(|x| (x.as_millis() as u64 + 999) / 1000).min();
+            if su == Some(Duration::ZERO) {
+                pending.push_front(step.clone());
+                (json!({"a": "S_Timeout"}), false, true)
+            } else if ru == Some(Duration::ZERO) {
+                pending.push_front(step.clone());
+                (json!({"a": "R_Timeout"}), false, true)
+            } else if next.map(|n| n >= 1 && n < d).unwrap_or(false) {
+                let n = next.unwrap();
+                pending.push_front(json!({"a": "Tick", "d": d - n}));
+                (json!({"a": "Tick", "d": n}), false, true)
+            } else {
+                (step, is_epi, false)
+            }
+        } else {
+            (step, is_epi, false)
+        };
         let step = &step;
         let a = step["a"].as_str().unwrap();
         let mut res = String::from("ok");
@@ -774,7 +798,7 @@ async fn run_script(script: &Value, out: &mut impl Write) {
         idx += 1;
         let mut line = json!({
             "i": idx,
-            "epi": is_epi,
+            "epi": is_epi, "auto": is_auto,
             "t": now.as_secs(),
             "a": a,
             "res": res,
